@@ -900,7 +900,113 @@ def rule_s9(ctx, rule: str, consequence: str):
                   f"serializer writes as it is - is not recognised when read back; {consequence}",
                   how="separators of the module's composite-name f-strings × split calls on those separators (partition / maxsplit=1 vs unbounded + length test)",
                   construct=f"unbounded split on {sep!r}")
-    ctx.require(n >= 2, "no parser of composite names found in serde (format {domain}::{function}/{value} expected)")
+    # readers that do not split at all: the qualified name is rebuilt with the serializer's own format for every known
+    # function and the stored name is matched against it (unambiguous whatever the components contain) - provided every
+    # occurrence of the second separator is tried as the boundary, not just the first
+    n_lookup = 0
+    for f, site, s2, ok in composite_name_lookups(ctx.repo):
+        n_lookup += 1
+        ctx.check(rule, f"S9 {f.local}: every {s2!r} of the stored name is tried as the end of a known qualified name", ok, f, site,
+                  f"the qualified names of the known functions are looked up, but only at one occurrence of {s2!r} (`{norm(site)[:60]}` outside a loop over the "
+                  f"occurrences): a function whose name contains {s2!r} is not recognised when its entries are read back; {consequence}",
+                  how="lookup idiom: key built with the writer's f-string; find/index of the second separator advanced in a loop", construct=f"one occurrence of {s2!r} tried")
+    # readers that split by guessing are only right when the writer refuses components that contain the separator that ends them
+    for f, s, comp in composite_name_ambiguities(ctx.repo):
+        ctx.check(rule, f"S9 {f.local}: a component that contains {s!r} is refused when the name is written", False, f, f.node,
+                  f"the name is read back by splitting at the first {s!r}, and the component before it ({comp}) is written as it is: when it contains {s!r} itself "
+                  f"(a domain such as a::b, a function called f/g) the entry is attributed to a function that does not exist and dropped; {consequence}",
+                  how="split idiom: first-occurrence split in the reader ↔ `<sep> in <component>` test in the writer (or the lookup idiom instead)",
+                  construct=f"component before {s!r} not refused")
+    ctx.require(n >= 2 or n_lookup >= 1, "no reader of composite names found in serde (format {domain}::{function}/{value} expected)")
+
+
+def _composite_formats(m):
+    """[(function, s1, s2, A, B)] for names written `{A}<s1>{B}<s2>{C}`: an f-string `{A}<s1>{B}` bound to a local that is the first
+    field of an f-string `{local}<s2>{C}` in the same top-level function (nested helpers included)."""
+    out = []
+    for f in m.all_funcs:
+        if isinstance(f.node, ast.Lambda) or f.parent is not None:
+            continue
+        inner = {}
+        for n in ast.walk(f.node):
+            if isinstance(n, ast.Assign) and isinstance(n.value, ast.JoinedStr) and isinstance(n.targets[0], ast.Name) and len(n.value.values) == 3 \
+                    and isinstance(n.value.values[1], ast.Constant) and isinstance(n.value.values[0], ast.FormattedValue) and isinstance(n.value.values[2], ast.FormattedValue):
+                inner[n.targets[0].id] = (n.value.values[1].value, norm(n.value.values[0].value), norm(n.value.values[2].value))
+        for n in ast.walk(f.node):
+            if isinstance(n, ast.JoinedStr) and len(n.values) == 3 and isinstance(n.values[0], ast.FormattedValue) and isinstance(n.values[0].value, ast.Name) \
+                    and n.values[0].value.id in inner and isinstance(n.values[1], ast.Constant):
+                s1, a, b = inner[n.values[0].value.id]
+                out.append((f, s1, n.values[1].value, a, b))
+    return out
+
+
+def composite_name_lookups(repo, module="onnx_ir.serde"):
+    """[(reader, find call, second separator, every occurrence tried)]: a function that builds `{A}<s1>{B}` (the writer's inner format)
+    as a table key and searches the stored name for <s2>."""
+    m = repo.modules[module]
+    out = []
+    for _w, s1, s2, _a, _b in sorted({(None, x[1], x[2], None, None) for x in _composite_formats(m)}):
+        for f in m.all_funcs:
+            if isinstance(f.node, ast.Lambda):
+                continue
+            keys = [n for n in own_nodes(f.node) if isinstance(n, ast.JoinedStr) and len(n.values) == 3 and isinstance(n.values[1], ast.Constant) and n.values[1].value == s1
+                    and isinstance(getattr(n, "_parent", None), (ast.Subscript, ast.DictComp, ast.Dict))]
+            finds = [c for c in own_nodes(f.node) if isinstance(c, ast.Call) and isinstance(c.func, ast.Attribute) and c.func.attr in ("find", "index", "rfind", "rindex")
+                     and c.args and isinstance(c.args[0], ast.Constant) and c.args[0].value == s2]
+            # … or walks the name character by character: `for i, ch in enumerate(name): if ch != <s2>: continue`
+            walks = []
+            for lp in (x for x in own_nodes(f.node) if isinstance(x, ast.For)):
+                tg = lp.target.elts[-1] if isinstance(lp.target, ast.Tuple) and lp.target.elts else lp.target
+                if not isinstance(tg, ast.Name):
+                    continue
+                for x in ast.walk(lp):
+                    # `ch != "/"` on the loop's character, or `name[i] != "/"` on its index
+                    if isinstance(x, ast.Compare) and len(x.ops) == 1 and isinstance(x.ops[0], (ast.Eq, ast.NotEq)) and isinstance(x.comparators[0], ast.Constant) \
+                            and x.comparators[0].value == s2 and any(isinstance(y, ast.Name) and y.id == tg.id for y in ast.walk(x.left)):
+                        walks.append((lp, x))
+                    # `"/".join(parts[:i])` over the pieces of an unbounded split at the separator: every boundary is rebuilt
+                    if isinstance(x, ast.Call) and isinstance(x.func, ast.Attribute) and x.func.attr == "join" and isinstance(x.func.value, ast.Constant) and x.func.value.value == s2 \
+                            and any(isinstance(y, ast.Name) and y.id == tg.id for a in x.args for y in ast.walk(a)):
+                        walks.append((lp, x))
+            if not keys or not (finds or walks):
+                continue
+            advancing = [c for c in finds if len(c.args) >= 2 and any(isinstance(a, (ast.While, ast.For)) for a in _ancestors(c, f.node))]
+            # a walk tries every occurrence unless it is left at the first one
+            complete = [x for lp, x in walks if not any(isinstance(y, (ast.Break, ast.Return)) for y in ast.walk(lp))]
+            site = (advancing or complete or finds or [x for _lp, x in walks])[0]
+            out.append((f, site, s2, bool(advancing or complete)))
+    return out
+
+
+def _ancestors(n, stop):
+    p = getattr(n, "_parent", None)
+    while p is not None and p is not stop:
+        yield p
+        p = getattr(p, "_parent", None)
+
+
+def composite_name_ambiguities(repo, module="onnx_ir.serde"):
+    """[(writer, separator, component text)]: the name is read back by first-occurrence splits (s1 from the whole name, then s2 from
+    the rest) and the writer puts the component that precedes a separator into the name without testing it for that separator."""
+    m = repo.modules[module]
+    out = []
+    for w, s1, s2, a, b in _composite_formats(m):
+        split_readers = []
+        for f in m.all_funcs:
+            if isinstance(f.node, ast.Lambda):
+                continue
+            splits = {c.args[0].value for c in own_nodes(f.node) if isinstance(c, ast.Call) and isinstance(c.func, ast.Attribute)
+                      and c.func.attr in ("partition", "split", "rpartition", "rsplit") and c.args and isinstance(c.args[0], ast.Constant)}
+            if {s1, s2} <= splits:
+                split_readers.append(f)
+        if not split_readers:
+            continue
+        tests = {(x.left.value, norm(x.comparators[0])) for x in ast.walk(w.node) if isinstance(x, ast.Compare) and len(x.ops) == 1 and isinstance(x.ops[0], (ast.In, ast.NotIn))
+                 and isinstance(x.left, ast.Constant)}
+        for sep, comp in ((s1, a), (s2, b)):
+            if (sep, comp) not in tests:
+                out.append((w, sep, comp))
+    return out
 
 
 # ---------------------------------------------------------------------------------------------------------------------- S10
